@@ -164,6 +164,37 @@ def tlc_mc(ctx, name, module, cfg_text, workers=None, timeout=None, xmx="6g", en
     return res
 
 
+def apalache_inductive(ctx, name, module_path, timeout=600):
+    """Discharge an inductive invariant with Apalache (symbolic, no bound on the constants):
+    Init => IndInv (length 0) and IndInv /\\ Next => IndInv' (length 1 from IndInit)."""
+    t0 = time.time()
+    ckey = hashlib.sha256((open(module_path).read() + name).encode()).hexdigest()[:24]
+    cfile = os.path.join(WORK, "cache", "apa-" + ckey, "result.json")
+    if ctx.use_cache and os.path.exists(cfile):
+        res = json.load(open(cfile))
+        res["cached"] = True
+        ctx.stages.append(res)
+        return res
+    outdir = os.path.join(WORK, "apalache", f"{name}-{os.getpid()}")
+    cmds = [["apalache-mc", "check", f"--out-dir={outdir}", "--cinit=ConstInit", "--init=Init", "--inv=IndInv", "--length=0", module_path],
+            ["apalache-mc", "check", f"--out-dir={outdir}", "--cinit=ConstInit", "--init=IndInit", "--inv=IndInv", "--length=1", module_path]]
+    for c in cmds:
+        try:
+            r = sh(c, timeout=timeout, cwd=WORK)
+        except subprocess.TimeoutExpired:
+            raise ToolError(f"apalache timed out on {module_path}")
+        if "The outcome is: NoError" not in r.stdout:
+            open(os.path.join(WORK, f"apalache-fail-{name}.log"), "w").write(r.stdout)
+            raise ToolError(f"apalache did not discharge the inductive invariant of {module_path} (log work/apalache-fail-{name}.log)")
+    shutil.rmtree(outdir, ignore_errors=True)
+    res = dict(kind="inductive", name=name, module=os.path.basename(module_path), obligations=2, discharged=2, wall_s=round(time.time() - t0, 2),
+               cmd="apalache-mc check --cinit=ConstInit --init={Init,IndInit} --inv=IndInv --length={0,1} " + os.path.basename(module_path), cached=False)
+    os.makedirs(os.path.dirname(cfile), exist_ok=True)
+    json.dump(res, open(cfile, "w"))
+    ctx.stages.append(res)
+    return res
+
+
 _MIS = re.compile(r'^<<"MISMATCH", (\d+), "(.*)">>$')
 
 
@@ -586,6 +617,9 @@ def write_evidence(ctx, spec, nviol, known):
         samples += s.get("samples", [])[:3]
     for s in mc:
         samples += [{"model": s["module"], "instance": s["name"], "states": s["states"]}]
+    for s in ctx.stages:
+        if s["kind"] == "inductive":
+            samples += [{"inductive_invariant": s["module"], "obligations": s["obligations"], "discharged": s["discharged"], "checker": "apalache"}]
     cov = dict(
         states=sum(s["states"] for s in mc),
         transitions=sum(s["transitions"] for s in mc),
@@ -640,7 +674,7 @@ def setup():
     for pkg in HARNESS_PKGS:
         cargo_build(ctx, pkg)
     bad = 0
-    for f in sorted(glob.glob(os.path.join(SPEC, "*.tla")) + glob.glob(os.path.join(SPEC, "mc", "*.tla")) + glob.glob(os.path.join(SPEC, "trace", "*.tla"))):
+    for f in sorted(glob.glob(os.path.join(SPEC, "*.tla")) + glob.glob(os.path.join(SPEC, "mc", "*.tla")) + glob.glob(os.path.join(SPEC, "trace", "*.tla")) + glob.glob(os.path.join(SPEC, "apalache", "*.tla"))):
         r = sh(["java", f"-DTLA-Library={SPEC}", "-cp", JAR, "tla2sany.SANY", f], cwd=os.path.dirname(f))
         if "Semantic errors" in r.stdout or "Parse Error" in r.stdout or "Fatal" in r.stdout or r.returncode != 0:
             print(f"SANY failed on {f}:\n{r.stdout[-1500:]}")
